@@ -50,7 +50,7 @@ class BalMonitor(Monitor):
                 p = a
                 while p < len(prog.code) and p < a + 6:
                     op, ops, _ = prog.code[p]
-                    if op in _WRITERS and ops[0][0] == 'S' and ops[0][1] in (self.A_ap, self.A_fp):
+                    if op in _WRITERS and ops[0][0] == 'S' and ops[0][1] in (self.A_ap, self.A_fp, self.A_defeat, st.get('try_fp')):
                         p += 1
                         continue
                     break
